@@ -259,6 +259,7 @@ func (e *Explorer) Explore() {
 					c := cands[i]
 					again := Step(e.T, e.Sc, frontier[c.pidx], c.ev)
 					atomic.AddInt64(&e.SelfChecks, 1)
+					again.Next.Mem = c.st.Mem // monitor memory is written by the monitors, which do not run here
 					if again.Next.Key() != c.st.Key() {
 						bad.Store(fmt.Sprintf("nondeterministic transition %s from state %v", c.ev, frontier[c.pidx].Describe()))
 					}
